@@ -156,6 +156,13 @@ def generate(ctx):
         for patch, tags in junk_stream(rng, doc, quick):
             cs = 1 if rng.random() < 0.7 else 0
             cases.append(case(cs, doc, patch, tags))
+    # pointer texts of every length around 64 / 128 / 256 bytes (boundaries of any fixed-size scratch copy of a pointer)
+    if ctx.get('seed_index', 0) == 0:
+        for L in list(range(58, 70)) + [126, 127, 128, 129, 254, 255, 256, 257, 258]:
+            key = 'k' * (L - 1); doc = Obj([(key, 1), ('z', [1, 2])])
+            for ops in ([G.mk_op('remove', '/' + key)], [G.mk_op('replace', '/' + key, 5)], [G.mk_op('move', '/m', frm='/' + key)], [G.mk_op('copy', '/' + key, frm='/z')],
+                        [G.mk_op('add', '/' + key + 'x', True)], [G.mk_op('test', '/' + key, 1)]):
+                cases.append(case(1, copy.deepcopy(doc), ops, ['pointer-length', 'len=%d' % L]))
     return cases
 
 def project(c, out): return strip_suffix(out)
